@@ -31,7 +31,15 @@ def mutants(path):
     in_block_comment = False
     for i, line in enumerate(src):
         s = line.strip()
-        if s.startswith("//") or not s or s.startswith("import") or s.startswith("package"):
+        if in_block_comment:
+            if "*/" in s:
+                in_block_comment = False
+            continue
+        if s.startswith("/*"):
+            if "*/" not in s:
+                in_block_comment = True
+            continue
+        if s.startswith("//") or s.startswith("*") or not s or s.startswith("import") or s.startswith("package"):
             continue
         code = line.split("//")[0]
         if '"' in code and code.count('"') >= 2 and ("Errorf" in code or "errors.New" in code):
@@ -59,11 +67,11 @@ def run_one(d, m, binp):
     lines[i] = new
     open(f, "w").write("\n".join(lines))
     try:
-        r = subprocess.run("go build ./... 2>&1", shell=True, cwd=d, env=ENV, capture_output=True, text=True, timeout=300)
+        r = subprocess.run("go build ./... 2>&1", shell=True, cwd=d, env=ENV, capture_output=True, text=True, errors="replace", timeout=300)
         if r.returncode != 0:
             return (m, "nobuild", "")
         try:
-            r = subprocess.run("go test -vet=off ./... 2>&1", shell=True, cwd=d, env=ENV, capture_output=True, text=True, timeout=240)
+            r = subprocess.run("go test -vet=off ./... 2>&1", shell=True, cwd=d, env=ENV, capture_output=True, text=True, errors="replace", timeout=240)
         except subprocess.TimeoutExpired:
             return (m, "killed", "timeout")
         if r.returncode != 0:
@@ -71,7 +79,7 @@ def run_one(d, m, binp):
         flagged = []
         for q in PROPS:
             c = subprocess.run([binp, "-prop", q, "-tier", "quick", "-noevidence", "-no-inline", "-repo", d, "-verif", VERIF],
-                               env=ENV, capture_output=True, text=True)
+                               env=ENV, capture_output=True, text=True, errors="replace")
             if c.returncode != 0:
                 rules = sorted(set(re.findall(r"(C\d\d\.[a-z0-9]+) violated", c.stdout)))
                 flagged.append(q + ":" + ",".join(r.split(".")[1] for r in rules))
